@@ -40,6 +40,10 @@ def build(ws, tier, seed, mode):
     return {"crates": {"crdt": {"dir": d, "features": feats}}, "mounted": mounted, "cfg": cfg}
 
 
+def validate(ws, build, logs_dir):
+    return common.validate_vcoll(ws, logs_dir)
+
+
 def harnesses(tier, seed):
     def h(name, what, t=1500, mem=16, covers=1):
         return {"name": name, "crate": "crdt", "timeout_s": t, "mem_gb": mem, "min_covers": covers, "what": what, "bounds": ""}
